@@ -29,6 +29,7 @@ def main():
     ap.add_argument("--replay")
     ap.add_argument("--only", default=None)
     ap.add_argument("--list", action="store_true")
+    ap.add_argument("--no-kani", action="store_true", help="development aid: run only the engine M part")
     a = ap.parse_args()
     prop = a.id
     logdir = os.path.join(OUT_DIR, "logs", prop)
@@ -46,6 +47,8 @@ def main():
     hs = [h for h in kani_run.discover() if h.id == prop and (a.tier == "thorough" or h.tier == "quick")]
     if a.only:
         hs = [h for h in hs if a.only in h.name]
+    if a.no_kani:
+        hs = []
     if a.list:
         for h in hs:
             print(h.name, h.tier, h.timeout, h.mem, h.expect)
